@@ -212,6 +212,10 @@ def compile_harness(name, sources, libs=(), flavour=None, extra=(), cxx=False, o
 
     Keyed on repo hash + harness source hash, so it rebuilds whenever /repo changes.
     """
+    sources = list(sources)
+    weak = os.path.join(VERIF, "harness", "verif_weak.c")
+    if not libs and os.path.exists(weak) and not cxx:
+        sources.append(weak)        # stand-ins for the fail-the-k-th hook symbols (see the file's header)
     h = hashlib.sha256()
     h.update(repo_hash().encode())
     for s in sources:
